@@ -47,6 +47,18 @@ CHECKS = {
         note=TRUSTED + " The schema predicates are this harness's reading of the doc comments; exclusion rules are stated in evidence.rule.",
         design_ref="§5 C18",
     ),
+    "C19": dict(
+        category="model_checking", engine="vsched",
+        technique="stateless model checking of a real exec.Session (local executor, source-instrumented) under a controlled scheduler, delay-bounded with happens-before state caching; auxiliary free-running -race pass",
+        text=("Concurrent Session.Run calls on one real session are executed under the vsched scheduler: two independent runs; r=Run(f) then Run(g,r) || Run(h,r) (shared tasks, with and without a "
+              "preceding Discard so that exactly one of the runs must recompute); Run(g,r) || Scan(r) || Discard(r); two shuffling programs; a pipelined and a shuffling consumer of a 2-shard result; "
+              "Parallelism 1 and 2. All schedules with <= 2 (quick, budgeted) / 3 (thorough) scheduling deviations are enumerated modulo happens-before equivalence. Oracle per execution: each run succeeds with "
+              "exactly its solo rows; the shared source task processes each row exactly once (twice after a discard: one recomputation, by one run); a scan racing a discard yields all rows or a correct prefix then an error; no deadlock. "
+              "Thorough additionally runs the same scenario bodies un-instrumented under the Go race detector (GOMAXPROCS 1,2,4,16); any report is a violation (this part samples schedules)."),
+        note=TRUSTED + " vsched assumptions as for C03. Bounded: 1-2 shard programs, 2-3 concurrent operations, stated deviation bounds with per-plan time budgets (bound actually completed is reported per plan). "
+             "The 'no data races' clause is decided dynamically over sampled schedules, not exhaustively.",
+        design_ref="§4 E1, §5 C19",
+    ),
 }
 
 NOT_YET = "check designed in DESIGN.md §5 but not yet built/validated in this tree; not claimed"
